@@ -2002,7 +2002,7 @@ void DOMRangeImpl::updateRangeForInsertedText(DOMNode* node, XMLSize_t offset, X
         || type == DOMNode::PROCESSING_INSTRUCTION_NODE))
     {
         if (fStartOffset > offset) {
-            fStartOffset = offset;
+            fStartOffset = fStartOffset+count;
         }
     }
     type = fEndContainer->getNodeType();
